@@ -29,7 +29,11 @@ META = {
             "flavour number where the coupling does (known finding). (4) GUARDS: the four documented inconsistency conditions of "
             "compute raise ValueError exactly in their case (truth table over the orderings of Qm, m and Qref per quark and "
             "reference nf), a mass given at its own scale is taken as is, the result is returned sorted and unsorted results "
-            "are refused.",
+            "are refused. (5) PATCH BOOKKEEPING: for every consistent placement of the three reference scales between the masses "
+            "and the coupling reference (nf_ref 3-6), compute - with recording mocks for evolve, solve and Couplings - evolves a "
+            "reference mass from the patch its scale lies in (3 + thresholds below Qm) to the wall of the patch adjoining its own "
+            "threshold on the side of the coupling reference, solves there with that patch's nf, and builds each coupling from "
+            "the masses found so far.",
     "note": "Level 'other': the root itself is not decided; two known findings in the decoupling step.",
     "technique": "array-shape lint at the fsolve call site; partial evaluation with mocked quadrature/coupling + series valuation; RG derivation with sympy; truth table by exhaustive PE",
     "engine": "sa",
@@ -339,6 +343,7 @@ def run(chk):
                "the downward table is no longer the series inverse of the upward one", where=fdn.where, instance="down")
     # ---- (4) guards of compute ----------------------------------------------------------------------------------------------------------
     _guards(chk, src)
+    _patches(chk, src)
     chk.note(decoupling_cases=n_dec, files=["src/eko/msbar_masses.py", "src/eko/couplings.py"])
     chk.explanation = "fsolve lint; kernels by PE + series; decoupling by PE with symbolic coupling; RG-derived logs; guard truth table."
 
@@ -413,3 +418,141 @@ def _guards(chk, src):
     t = " ".join(ast.unparse(fc.node).split())
     chk.decide("return np.sort(masses)" in t and "raise ValueError('MSbar masses are not to be sorted')" in t, "result-is-sorted", fc.qname,
                "compute no longer returns sorted masses / refuses unsorted solutions", where=fc.where)
+
+
+def _patches(chk, src):
+    """Patch bookkeeping of compute: which flavour patch a reference mass is evolved FROM and TO, and where it is solved.
+
+    evolve / solve / Couplings are recording mocks; the true masses are fixed exact rationals, the reference scales Qm run over
+    every interval between the masses and the coupling reference.  The expected calls are written from the property: the mass is
+    evolved from the patch its reference scale lies in (3 + number of thresholds below Qm) to the wall of the patch adjoining
+    the quark's threshold on the side of the coupling reference, and solved there."""
+    fc = src.func(f"{MM}.compute")
+    true_m = [Fraction(2), Fraction(5), Fraction(170)]
+    val = [Fraction(21, 10), Fraction(51, 10), Fraction(171)]      # reference VALUES (distinct from the fixed points)
+    mu_refs = {3: Fraction(3, 2), 4: Fraction(3), 5: Fraction(91), 6: Fraction(300)}
+    cands = [
+        [Fraction(2), Fraction(1), Fraction(3), Fraction(10), Fraction(100), Fraction(200), Fraction(400)],
+        [Fraction(5), Fraction(1), Fraction(3), Fraction(10), Fraction(100), Fraction(200), Fraction(400)],
+        [Fraction(170), Fraction(1), Fraction(3), Fraction(10), Fraction(100), Fraction(200), Fraction(400)],
+    ]
+    EPS = Fraction(1, 1000)
+    n = n_ev = bad = 0
+    seen_jumps = set()
+    for nf_ref in (3, 4, 5, 6):
+        mu_ref = mu_refs[nf_ref]
+        mu2 = mu_ref * mu_ref
+        for qms in itertools.product(*cands):
+            # documented consistency conditions: skip the inputs that must be refused (decided in _guards)
+            refuse = False
+            for j in range(3):
+                q2m, m2 = qms[j] ** 2, true_m[j] ** 2
+                if q2m == m2:
+                    continue
+                if (j + 4 == nf_ref and q2m > mu2) or (j + 4 == nf_ref + 1 and q2m < mu2) or (j + 3 >= nf_ref and q2m >= m2) \
+                        or (j + 3 < nf_ref and q2m < m2):
+                    refuse = True
+            if refuse:
+                continue
+            order = [2, 1, 0] if nf_ref > 4 else [0, 1, 2]
+            calls = []
+            pe = PE(src)
+
+            def m_evolve(p, a, k, calls=calls):
+                args = dict(zip(("m2_ref", "q2m_ref", "strong_coupling", "thresholds_ratios", "xif2", "q2_to", "nf_ref", "nf_to"), a))
+                args.update(k)
+                calls.append(("evolve", args))
+                return args["m2_ref"] + EPS
+
+            def m_solve(p, a, k, calls=calls):
+                args = dict(zip(("m2_ref", "q2m_ref", "strong_coupling", "nf_ref", "xif2"), a))
+                args.update(k)
+                calls.append(("solve", args))
+                j = next(i for i in range(3) if args["m2_ref"] in (val[i] ** 2, val[i] ** 2 + EPS))
+                return true_m[j] ** 2
+
+            def m_coupl(p, a, k):
+                ms = k.get("masses")
+                return ("SC", tuple(ms.flat()) if isinstance(ms, Arr) else tuple(ms))
+
+            pe.overrides[f"{MM}.solve"] = m_solve
+            pe.overrides[f"{MM}.evolve"] = m_evolve
+            pe.overrides["eko.couplings.Couplings"] = m_coupl
+            pe.ext["numpy.allclose"] = lambda p, a, k: True
+
+            class Ref(Opaque):
+                def __init__(self, value, scale):
+                    self.value, self.scale = value, scale
+
+            ms = Opaque()
+            for j, h in enumerate("cbt"):
+                setattr(ms, h, Ref(val[j] if qms[j] != true_m[j] else true_m[j], qms[j]))
+            cp = Opaque()
+            cp.ref = (mu_ref, nf_ref)
+            inst = f"nf_ref={nf_ref},Qm=({qms[0]},{qms[1]},{qms[2]})"
+            try:
+                pe.call(fc.qname, [ms, cp, (3, 0), "exact", [Fraction(1)] * 3], {})
+            except PERaise as e:
+                bad += 1
+                if bad <= 10:
+                    chk.fail("mass-is-solved-in-the-adjoining-patch", fc.qname, f"{inst}: consistent input refused: {e}", where=fc.where, instance=inst)
+                continue
+            except dag.Undecidable:
+                continue
+            n += 1
+            # expected calls, in processing order
+            want = []
+            INF = float("inf")
+            known = [Fraction(0)] * (nf_ref - 3) + [INF] * (6 - nf_ref)
+            for j in order:
+                if qms[j] == true_m[j]:
+                    known[j] = true_m[j] ** 2
+                    continue
+                fwd = j + 3 >= nf_ref
+                nf_target = j + 3 if fwd else j + 4
+                nf_here = 3 + sum(1 for k_ in range(3) if true_m[k_] < qms[j])
+                snap = tuple(known)
+                if nf_here != nf_target:
+                    wall = true_m[j - 1] ** 2 if fwd else true_m[j + 1] ** 2
+                    want.append(("evolve", val[j] ** 2, qms[j] ** 2, wall, nf_here, nf_target, snap))
+                    want.append(("solve", val[j] ** 2 + EPS, wall, nf_target, snap))
+                    n_ev += 1
+                    seen_jumps.add((nf_here, nf_target))
+                else:
+                    want.append(("solve", val[j] ** 2, qms[j] ** 2, nf_target, snap))
+                known[j] = true_m[j] ** 2
+
+            def scm(x):
+                return tuple(x[1]) if isinstance(x, tuple) and len(x) == 2 and x[0] == "SC" else None
+
+            got = []
+            for kind, a in calls:
+                if kind == "evolve":
+                    got.append(("evolve", a["m2_ref"], a["q2m_ref"], a["q2_to"], a.get("nf_ref"), a.get("nf_to"), scm(a["strong_coupling"])))
+                else:
+                    got.append(("solve", a["m2_ref"], a["q2m_ref"], a["nf_ref"], scm(a["strong_coupling"])))
+            if got != want:
+                bad += 1
+                if bad <= 10:
+                    d = next((i for i, (g, w) in enumerate(zip(got, want)) if g != w), min(len(got), len(want)))
+                    g = got[d] if d < len(got) else None
+                    w = want[d] if d < len(want) else None
+                    chk.fail("mass-is-solved-in-the-adjoining-patch", fc.qname,
+                             f"{inst}: call #{d} is {_fmt(g)}, required {_fmt(w)} (the running mass leaves the patch its reference scale "
+                             f"lies in - 3 + number of thresholds below Qm - and is solved at the wall of the patch adjoining its own "
+                             f"threshold on the side of the coupling reference, with a coupling that knows the masses found so far)",
+                             where=fc.where, instance=inst)
+    if not bad:
+        chk.ok("mass-is-solved-in-the-adjoining-patch", fc.qname,
+               f"{n} consistent (nf_ref, Qmc, Qmb, Qmt) placements, {n_ev} with a pre-evolution across patches {sorted(seen_jumps)}",
+               how="exhaustive PE with recording mocks vs reference from the property")
+        chk.floor("patch placements", n, 100)
+        chk.floor("placements with pre-evolution", n_ev, 40)
+        chk.floor("distinct (from, to) patch jumps", len(seen_jumps), 6)
+
+
+def _fmt(c):
+    if c is None:
+        return "missing"
+    names = {"evolve": ("m2", "Qm2", "to", "nf_from", "nf_to", "coupling masses"), "solve": ("m2", "Q2", "nf", "coupling masses")}[c[0]]
+    return c[0] + "(" + ", ".join(f"{k}={'(' + ','.join(map(str, v)) + ')' if isinstance(v, tuple) else v}" for k, v in zip(names, c[1:])) + ")"
